@@ -47,6 +47,7 @@ func evalC03(c pipeCase) *Failure {
 		}
 	}
 	var blockFail *Failure
+	decodedUpTo, nframes := 0, 0
 	conn.OnBlock = func(delivered int, out []byte) {
 		if blockFail != nil {
 			return
@@ -59,10 +60,18 @@ func evalC03(c pipeCase) *Failure {
 		if k > nExpected {
 			k = nExpected
 		}
-		frames, _, _ := resp.DecodeAll(out)
-		if len(frames) < k {
+		// count complete reply frames incrementally (outputs can be large)
+		for decodedUpTo < len(out) {
+			_, n, err := resp.Decode(out[decodedUpTo:])
+			if err != nil {
+				break
+			}
+			decodedUpTo += n
+			nframes++
+		}
+		if nframes < k {
 			blockFail = failf("c03|reply-late", "the server asked for more input after %d bytes (requests fully delivered: %d) having written only %d complete replies; requests %v chunks %v",
-				delivered, k, len(frames), c.strings(), c.Sizes)
+				delivered, k, nframes, c.strings(), c.Sizes)
 		}
 	}
 	o := connsim.Serve(srv, conn, serveTimeout())
